@@ -27,7 +27,7 @@ theorem dropWhile_eq_nil_of_all {α} (p : α → Bool) (l : List α) (h : l.all 
   | nil => rfl
   | cons a as ih =>
     simp only [List.all_cons, Bool.and_eq_true] at h
-    simp [List.dropWhile_cons, h.1, ih h.2]
+    simp [h.1, ih h.2]
 
 theorem dropWhile_append_all {α} (p : α → Bool) (a l : List α) (h : a.all p = true) :
     (a ++ l).dropWhile p = l.dropWhile p := by
